@@ -320,6 +320,10 @@ class Interp:
             env = self.mods[t[1]]
             if env.module is None:
                 raise Unsupported("target module not built")
+            if env.style == "gen" and env.gen is not None and env.ended:
+                # the natural way to instantiate a generated module: call the generator again with
+                # the same parameters (memoised: the very same Module comes back)
+                return env.gen(k=t[1], s=1 * self.h.prefix.m)
             return env.module
         if kind == "prim":
             return getattr(self.prims, t[1])(**t[2])
@@ -405,7 +409,7 @@ class Interp:
     def op_fault(self, kind, where, mid, nth, label):
         h = self.h
         if kind == "boundary":
-            cls = seams.make_boundary_fault(h, self.mods[mid].module, label, self.fault_counter)
+            cls = seams.make_boundary_fault(h, self.mods[mid].module, label, self.fault_counter, dirty=bool(nth))
             e = seams.build_faulty_elaborator(h, "boundary", where, cls)
         else:
             cls = seams.make_midpass_fault(h, where, nth, label, self.fault_counter)
